@@ -185,8 +185,16 @@ def gen_case(seed, tier):
                 pending = False
             if i_edge and i_val:
                 pending = True
-    return {"config": config, "sched": {"mode": sc.choice(["seeded", "seeded", "reverse", "insertion"]),
+    case = {"config": config, "sched": {"mode": sc.choice(["seeded", "seeded", "reverse", "insertion"]),
                                         "seed": sc.randrange(1 << 32)}, "steps": steps, "reuse": fl.random() < 0.2}
+    from dsim import vendors
+    # every vendor platform may substitute its own implementation of the primitives: the contracts are those of the primitive.
+    # (a) where the substitute is ordinary logic (Xilinx FFSynchronizer, hence PulseSynchronizer too) the whole run is made with it;
+    # (b) otherwise the primitive, with plain or value-castable (enum / struct) signals, must at least elaborate down to the netlist
+    if kind in ("ff", "pulse") and fl.random() < 0.3:
+        config["platform"] = fl.choice(["xc7", "xc6s", "xc3s"])
+    config["vendor"] = {"platform": fl.choice(vendors.NAMES), "castable": fl.choice([None, None, "enum", "struct"])}
+    return case
 
 
 def _first_edge(period, phase, edge):
@@ -292,6 +300,67 @@ def run_pulse_timeline(case):
     return finish(res, dig, stats, stats["probes"]["pulses"] > 0)
 
 
+def vendor_ridealong(config, P):
+    """The primitive elaborated by a vendor platform's own code, down to the netlist (no toolchain runs): a legal instance is never
+    refused, whatever platform it is built for."""
+    import traceback
+    import warnings
+    from amaranth.hdl import Signal, Module, ClockDomain
+    from amaranth.lib import cdc, enum, data
+    from amaranth.back import rtlil
+    from dsim import vendors
+    vb = config["vendor"]
+    kind, stages = config["kind"], config["stages"]
+    m = Module()
+    m.domains.o = ClockDomain("o")
+    m.domains.i = ClockDomain("i")
+    if kind == "ff":
+        w = max(1, config["width"])
+        if vb["castable"] == "enum":
+            class E(enum.Enum, shape=w):
+                A = 0
+                B = (1 << w) - 1
+            i, o = Signal(E, name="i"), Signal(E, name="o")
+            init = E.A
+        elif vb["castable"] == "struct":
+            L = data.StructLayout({"a": 1, "b": w})
+            i, o = Signal(L, name="i"), Signal(L, name="o")
+            init = {"a": 1, "b": 0}
+        else:
+            i, o = Signal(w, name="i"), Signal(w, name="o")
+            init = config["init"] & ((1 << w) - 1)
+        m.submodules.dut = cdc.FFSynchronizer(i, o, o_domain="o", stages=stages, init=init, reset_less=config["reset_less"])
+        ports = [i, o]
+    elif kind == "async":
+        i, o = Signal(name="i"), Signal(name="o")
+        m.submodules.dut = cdc.AsyncFFSynchronizer(i, o, o_domain="o", stages=stages, async_edge=config["async_edge"])
+        ports = [i, o]
+    elif kind == "reset":
+        i = Signal(name="arst")
+        m.submodules.dut = cdc.ResetSynchronizer(i, domain="o", stages=stages)
+        ports = [i]
+    else:
+        dut = cdc.PulseSynchronizer("i", "o", stages=stages)
+        m.submodules.dut = dut
+        ports = [dut.i, dut.o]
+    with warnings.catch_warnings():
+        warnings.simplefilter("ignore")
+        try:
+            rtlil.convert(m, platform=vendors.make(vb["platform"]), ports=[Value_cast(p) for p in ports])
+        except Exception as e:
+            last = traceback.extract_tb(e.__traceback__)[-1].filename
+            raise Violation("vendor_primitive_refused", -1, dict(vb, kind=kind, stages=stages, raised=type(e).__name__,
+                                                                 msg=str(e)[:200], where=last.split("amaranth/")[-1]))
+    P["vendor_" + vb["platform"]] = 1
+    if vb["castable"] and kind == "ff":
+        P["vendor_value_castable"] = 1
+
+
+def Value_cast(v):
+    from amaranth.hdl import Value
+    return Value.cast(v)
+
+
 def run_case(case):
     if case["config"]["kind"] == "pulse_tl":
         return run_pulse_timeline(case)
@@ -384,6 +453,14 @@ def run_case(case):
         run_guarded(res, refuse)
         dig.add(("shadow_neg", kind, stages))
         return finish(res, dig, stats, True)
+    if config.get("vendor"):
+        run_guarded(res, lambda: vendor_ridealong(config, P))
+        if res.violation:
+            return finish(res, dig, stats, True)
+    if config.get("platform"):
+        from dsim import vendors
+        dut = vendors.on_platform(dut, vendors.make(config["platform"]))
+        P["run_on_" + config["platform"]] = 1
     run = ManualRun(dut, domains, sched_mode=case["sched"]["mode"], sched_seed=case["sched"]["seed"],
                     extra_lines=extra_lines)
     if kind == "reset":
